@@ -99,7 +99,7 @@ class PEval:
                 if isinstance(expr.op, ast.Sub):
                     return Const(a.value - b.value)
                 return Const(a.value * b.value)
-            return None
+            return self._fold_text(expr, env)
         if isinstance(expr, ast.UnaryOp) and isinstance(expr.op, ast.USub):
             a = self.value(expr.operand, env)
             if isinstance(a, Const) and isinstance(a.value, int):
@@ -121,6 +121,64 @@ class PEval:
                 return self.value(expr.body, env)
             if c is False:
                 return self.value(expr.orelse, env)
+        return self._fold_text(expr, env)
+
+    # total, pure operations on constant text (no user code involved)
+    _STR_METHODS = ("startswith", "endswith", "rstrip", "lstrip", "strip",
+                    "lower", "upper", "replace", "find", "count")
+
+    def _fold_text(self, expr: ast.AST, env: Env) -> Any:
+        if isinstance(expr, ast.BinOp) and isinstance(expr.op, ast.Add):
+            a, b = self.value(expr.left, env), self.value(expr.right, env)
+            if isinstance(a, Const) and isinstance(b, Const) and \
+                    isinstance(a.value, str) and isinstance(b.value, str):
+                return Const(a.value + b.value)
+            return None
+        if isinstance(expr, ast.Call) and isinstance(expr.func, ast.Name) \
+                and expr.func.id == "len" and len(expr.args) == 1 and \
+                not expr.keywords:
+            a = self.value(expr.args[0], env)
+            if isinstance(a, Const) and isinstance(a.value, str):
+                return Const(len(a.value))
+            return None
+        if isinstance(expr, ast.Call) and \
+                isinstance(expr.func, ast.Attribute) and \
+                expr.func.attr in self._STR_METHODS and not expr.keywords:
+            recv = self.value(expr.func.value, env)
+            args = [self.value(a, env) for a in expr.args]
+            if isinstance(recv, Const) and isinstance(recv.value, str) and \
+                    all(isinstance(a, Const) and
+                        isinstance(a.value, (str, int)) for a in args):
+                try:
+                    return Const(getattr(recv.value, expr.func.attr)(
+                        *[a.value for a in args]))
+                except (TypeError, ValueError):
+                    return None
+            return None
+        if isinstance(expr, ast.Subscript):
+            recv = self.value(expr.value, env)
+            if not (isinstance(recv, Const) and isinstance(recv.value, str)):
+                return None
+            sl = expr.slice
+            if isinstance(sl, ast.Slice):
+                parts = []
+                for part in (sl.lower, sl.upper, sl.step):
+                    if part is None:
+                        parts.append(None)
+                        continue
+                    v = self.value(part, env)
+                    if not (isinstance(v, Const) and
+                            isinstance(v.value, int)):
+                        return None
+                    parts.append(v.value)
+                try:
+                    return Const(recv.value[slice(*parts)])
+                except ValueError:
+                    return None
+            v = self.value(sl, env)
+            if isinstance(v, Const) and isinstance(v.value, int) and \
+                    -len(recv.value) <= v.value < len(recv.value):
+                return Const(recv.value[v.value])
         return None
 
     def truth(self, expr: ast.AST, env: Env,
@@ -177,6 +235,10 @@ class PEval:
             a, b = self.truth(expr.body, env), self.truth(expr.orelse, env)
             if a is not None and a == b:
                 return a
+        if isinstance(expr, (ast.Call, ast.Subscript, ast.BinOp)):
+            v = self._fold_text(expr, env)
+            if isinstance(v, Const):
+                return bool(v.value)
         return None
 
     def _isinstance(self, obj: ast.AST, types: ast.AST,
@@ -195,6 +257,10 @@ class PEval:
                  env: Env) -> Optional[bool]:
         lv, rv = self.value(left, env), self.value(right, env)
         if isinstance(op, (ast.In, ast.NotIn)):
+            if isinstance(lv, Const) and isinstance(rv, Const) and \
+                    isinstance(lv.value, str) and isinstance(rv.value, str):
+                hit_s = lv.value in rv.value
+                return hit_s if isinstance(op, ast.In) else not hit_s
             if lv is None or not isinstance(right, (ast.List, ast.Tuple,
                                                     ast.Set)):
                 return None
@@ -259,11 +325,15 @@ class PEval:
         to specialise w.r.t. the *result* of an assignment such as
         ``typed = convert(raw)`` whose kind is the case being analysed."""
         self._pinned = set(pinned or ())
+        self.returned = []
         res, _ = self._block(stmts, dict(env))
         self._pinned = set()
         return res
 
     _pinned: Set[str] = set()
+    #: (return statement, abstract value, abstract values of its call
+    #: arguments) for every Return reached by the last specialise()
+    returned: List[Tuple[ast.stmt, Any, List[Any]]] = []
 
     def _kill(self, env: Env, names: Iterable[str]) -> None:
         names = set(names) - self._pinned
@@ -376,6 +446,11 @@ class PEval:
                 out.append(new)
                 continue
             out.append(stmt)
+            if isinstance(stmt, ast.Return) and stmt.value is not None:
+                v = self.value(stmt.value, env)
+                argv = [self.value(a, env) for a in stmt.value.args] \
+                    if isinstance(stmt.value, ast.Call) else []
+                self.returned.append((stmt, v, argv))
             if isinstance(stmt, (ast.Return, ast.Raise, ast.Continue,
                                  ast.Break)):
                 break
